@@ -3,6 +3,10 @@ import random
 import asmgen, asmcommon
 from core import log
 
+# parts of an assembly result the property does not speak about: a difference in these alone breaks the
+# correspondence but is not an input on which the property fails (reported with no-failing-input-found)
+AUX = ('bps', 'spans')
+
 ASSUMPTIONS = [
     "a numeric literal denotes a 16-bit value (#65535, xFFFF and #-1 are the same operand), as the lexer documents",
     ".blkw with a negative decimal count and .stringz characters above U+FFFF are outside 'documented data words'",
@@ -39,7 +43,7 @@ def gen_cases(tier, seed):
 def correspondence(ctx, violations, known_hits):
     cases, tags = gen_cases(ctx.tier, ctx.seed)
     profiles = ("debug",) if ctx.tier == "quick" else ("debug", "release")
-    r = asmcommon.run_asm_cases(ctx, cases, tags, violations, profiles,
+    r = asmcommon.run_asm_cases(ctx, cases, tags, violations, profiles, aux=AUX,
                                 prop_note="MODEL = SPEC on accepted programs is proved (C01 theorems); an accepted image that differs is a wrong encoding")
     # layout independence, checked on the model's own answers is implied by equality with the model;
     ctx.cleanup()
